@@ -98,6 +98,68 @@ def _make_tree(t, names=None, route="ctor"):
     return Tree(n, names=nm, **cols)
 
 
+# ---- angle families: "all angles" includes angles of many turns (accumulated animation / registration angles) -------------------
+ANGLE_FAMILIES = ["turns", "near-quarter", "decade"]
+
+
+def _angle(rng, family, k=0):
+    """an angle of the family: `turns` = m whole turns plus an ordinary angle; `near-quarter` = q quarter turns (q up to 10^5)
+    plus / minus an offset of 10^-1 … 10^-4 rad; `decade` = an arbitrary angle of magnitude 10^e rad, e = 1 … 5.  The running
+    index k cycles through the decades, so every decade occurs in every run."""
+    e = 1 + k % 5
+    sgn = rng.choice([1.0, -1.0])
+    if family == "turns":
+        return sgn * (2 * math.pi * rng.randint(10 ** (e - 1), 10 ** e) + rng.uniform(-3.1, 3.1))
+    if family == "near-quarter":
+        return sgn * (math.pi / 2 * rng.randint(10 ** (e - 1), 10 ** e)) + rng.choice([1.0, -1.0]) * 10 ** -rng.uniform(1, 4)
+    return sgn * rng.uniform(0.1, 1.0) * 10 ** e
+
+
+def _unit_axis(rng):
+    ax = [rng.uniform(-1, 1) for _ in range(3)]
+    nrm = math.sqrt(sum(a * a for a in ax)) or 1.0
+    ax = [a / nrm for a in ax]
+    if rng.random() < 0.3:
+        ax = rng.choice([[1.0, 0.0, 0.0], [0.0, 1.0, 0.0], [0.0, 0.0, 1.0], [-1.0, 0.0, 0.0], [0.0, -1.0, 0.0], [0.0, 0.0, -1.0]])
+    return ax
+
+
+# the element type of a user supplied 4x4 matrix (np.eye / np.linalg.inv give float64, the utils builders float32)
+MDTYPES = ["float64", "float32"]
+
+
+def _matrix12(rng):
+    """a general invertible affine map as 12 numbers (rows of [A | t]): diagonal factors, a triangular shear, a translation —
+    all dyadic, so the float32 and the float64 spelling denote the same map"""
+    d = [rng.choice([0.5, 2.0, 1.0, 1.5]) for _ in range(3)]
+    sh = lambda: rng.choice([0.0, 0.25, -0.25, 0.5, -0.5])
+    A = [[d[0], sh(), sh()], [0.0, d[1], sh()], [0.0, 0.0, d[2]]]
+    if rng.random() < 0.5:
+        A = [list(r) for r in zip(*A)]
+    t = [rng.randint(-40, 40) / 4 for _ in range(3)]
+    return [v for i in range(3) for v in A[i] + [t[i]]]
+
+
+def _inverse(kind, a, center="origin"):
+    """(kind, parameters) of the inverse transform about the same kind of centre, None when the stated map has none (or none of the same
+    kind).  A root-centred affine map p -> A(p-c)+t+c moves the root to c+t; its inverse about THAT root is q -> A^-1(q-c')-t+c'."""
+    if kind == "translate":
+        return kind, [-v for v in a]
+    if kind == "scale":
+        return (kind, [1 / v for v in a]) if all(v != 0 for v in a) else None
+    if kind in ("rotx", "roty", "rotz"):
+        return kind, [-a[0]]
+    if kind == "rot":
+        return kind, list(a[:3]) + [-a[3]]
+    if kind == "affine_m":
+        M = np.vstack([np.array(a, dtype=np.float64).reshape(3, 4), [0, 0, 0, 1.0]])
+        Mi = np.linalg.inv(M)
+        if center == "root":
+            Mi[:3, 3] = -M[:3, 3]
+        return kind, Mi[:3].flatten().tolist()
+    return None
+
+
 def _kinds(rng, k=None):
     th = rng.choice([0.0, math.pi / 2, -math.pi / 3, rng.uniform(-3.1, 3.1), rng.uniform(-3.1, 3.1)])
     ax = [rng.uniform(-1, 1) for _ in range(3)]
@@ -118,6 +180,8 @@ def _kinds(rng, k=None):
         ("affine", [rng.choice([0.5, 2.0, 1.5]) for _ in range(3)] + [rng.randint(-40, 40) / 4 for _ in range(3)]),
         # the same kind of matrix multiplied by a constant (last row [0, 0, 0, w]): homogeneous coordinates, the same map
         ("affine_h", [rng.choice([0.5, 2.0, 1.5]) for _ in range(3)] + [rng.randint(-40, 40) / 4 for _ in range(3)] + [rng.choice([2.0, 0.25, 4.0])]),
+        # a user supplied matrix with a shear part, given as a float64 or a float32 array
+        ("affine_m", _matrix12(rng)),
     ]
 
 
@@ -132,6 +196,9 @@ def _expected(kind, a, center, root, P):
     Q = P - c0
     if kind in ("affine", "affine_h"):
         R = Q * np.asarray(a[:3]) + np.asarray(a[3:6])
+    elif kind == "affine_m":
+        M = np.asarray(a, dtype=np.float64).reshape(3, 4)
+        R = Q @ M[:, :3].T + M[:, 3]
     elif kind == "scale":
         R = Q * np.asarray(a)
     else:
@@ -145,7 +212,7 @@ def _expected(kind, a, center, root, P):
     return R + c0
 
 
-def _transform(kind, a, center, num="float"):
+def _transform(kind, a, center, num="float", mdtype="float64"):
     from swcgeom.transforms import Rotate, RotateX, RotateY, RotateZ, Scale, Translate, TranslateOrigin
 
     kw = {} if center == "default" else {"center": center}
@@ -163,6 +230,12 @@ def _transform(kind, a, center, num="float"):
         from swcgeom.utils import scale3d, translate3d
 
         return AffineTransform(a[6] * (translate3d(*a[3:6]) @ scale3d(*a[:3])), **kw)
+    if kind == "affine_m":
+        from swcgeom.transforms import AffineTransform
+
+        M = np.eye(4, dtype=mdtype)
+        M[:3] = np.array(a, dtype=np.float64).reshape(3, 4)
+        return AffineTransform(M, **kw)
     if kind == "translate_origin":
         return TranslateOrigin()
     if kind == "scale":
@@ -202,28 +275,41 @@ class Affine(Suite):
                         cls = "scale-flat" if any(v == 0 for v in a) else "scale-mirror"
                     c = {"class": f"{cls}/{center}" + ("" if names is None else f"/names-{fam}"), "tree": t, "kind": kind, "a": a, "center": center,
                          "warm": rng.random() < 0.5, "num": rng.choice(NUMS) if kind in ("translate", "scale") else "float"}
+                    if kind == "affine_m":
+                        c["mdtype"] = rng.choice(MDTYPES)
+                        c["class"] = f"{cls}-{c['mdtype']}/{center}" + ("" if names is None else f"/names-{fam}")
                     if names is not None:
                         # the warm-up neuron of a reused transform object has the same names table or the default one
                         c.update(names=names, route=route, warm_names=rng.choice(["same", "default"]))
                     out.append(c)
+        # "all angles": angles of many turns — every rotation kind, every family (see _angle), every decade 10 … 10^5 rad in every run
+        ka = 0
+        for rep in range(3 if big else 1):
+            for fam in ANGLE_FAMILIES:
+                for _e in range(5):
+                    t = gen.tree_case(rng, rng.choice([2, 3, 5, 9]), gen.pick_shape(rng, ka), numbering="sorted", coords="dyadic")
+                    for kind in ("rotx", "roty", "rotz", "rot"):
+                        th = _angle(rng, fam, ka)
+                        center = rng.choice(["root", "origin", "default", "soma"])
+                        out.append({"class": f"{kind}-angle-{fam}/{center}", "tree": t, "kind": kind, "a": ([] if kind != "rot" else _unit_axis(rng)) + [th],
+                                    "center": center, "warm": False, "num": "float"})
+                    ka += 1
         return out
 
     def run(self, case):
         names, route, num = case.get("names"), case.get("route", "ctor"), case.get("num", "float")
+        md = case.get("mdtype", "float64")
         t = _make_tree(case["tree"], names, route)
         before = {k: v.copy() for k, v in t.ndata.items()}
-        tr = _transform(case["kind"], case["a"], case["center"], num)
+        tr = _transform(case["kind"], case["a"], case["center"], num, md)
         # the inverse transform is built BEFORE the forward one is applied: transform objects are values, several are alive at once
         kind, a = case["kind"], case["a"]
         inv = None
         if kind == "translate":
             inv = _transform(kind, [-v for v in a], case["center"], num)
-        elif kind == "scale" and all(v != 0 for v in a):      # a scaling with a zero factor has no inverse
-            inv = _transform(kind, [1 / v for v in a], case["center"])
-        elif kind in ("rotx", "roty", "rotz"):
-            inv = _transform(kind, [-a[0]], case["center"])
-        elif kind == "rot":
-            inv = _transform(kind, a[:3] + [-a[3]], case["center"])
+        elif _inverse(kind, a, self._center(case)) is not None:                   # a scaling with a zero factor has no inverse
+            inv = _transform(kind, _inverse(kind, a, self._center(case))[1], case["center"], "float", md)
+        if kind == "rot":
             _transform(kind, [a[1], a[2], a[0], a[3] * 0.5 + 0.3], case["center"])      # … and an unrelated rotation after it
         if case.get("warm"):
             # the same transform object used on another neuron first (transform objects are reusable:
@@ -252,7 +338,7 @@ class Affine(Suite):
         return "root" if c in ("root", "soma") else "origin"
 
     def lines(self, case, res):
-        if "exc" in res or case["kind"] in ("translate_origin", "affine", "affine_h"):
+        if "exc" in res or case["kind"] in ("translate_origin", "affine", "affine_h", "affine_m"):
             return []
         t = case["tree"]
         root = t["xyz"][0]
@@ -266,7 +352,16 @@ class Affine(Suite):
         return out
 
     def oracle(self, case, res):
+        try:
+            return self._oracle(case, res)
+        except Exception as e:  # noqa: BLE001 - an output the clauses cannot even be evaluated on (wrong sizes, None, ragged) is a finding
+            return [(f"{case.get('kind')}-malformed-output", f"{case.get('kind')}{case.get('a')} center={case.get('center')}: the result cannot be "
+                     f"compared with the stated map ({type(e).__name__}: {str(e)[:200]})")]
+
+    def _oracle(self, case, res):
         t = case["tree"]
+        if not isinstance(res, dict):
+            return [(f"{case['kind']}-malformed-output", f"result is {type(res).__name__}")]
         if "exc" in res:
             return [(f"{case['kind']}-raises", f"{case['kind']}({case['a']}, center={case['center']}) raised {res['exc']}: {res.get('msg')}")]
         out = []
@@ -297,6 +392,135 @@ class Affine(Suite):
         return case["tree"]["n"] >= 2 and any(abs(v) > 0 for v in case["tree"]["xyz"][0])
 
 
+# ---- pipelines: a transform is applied to "all trees", in particular to the OUTPUT of another transform ---------------------------
+STEP_KINDS = ["translate", "scale", "rotx", "roty", "rotz", "rot", "affine_m/float64", "affine_m/float32", "translate_origin"]
+STEP_COMBOS = [(k, c) for k in STEP_KINDS for c in (["origin", "root"] if k != "translate_origin" else ["default"])]
+
+
+def _step(rng, combo, default_ok=True):
+    """one step {kind, a, center[, mdtype]} of a pipeline; `root` is spelled root / soma / (where it is the default) left out,
+    `origin` is spelled origin / (where it is the default) left out"""
+    k, c = combo
+    kind, _, md = k.partition("/")
+    root_default = kind in ("scale", "rotx", "roty", "rotz", "rot")
+    if c == "root":
+        center = rng.choice(["root", "soma"] + (["default"] if root_default and default_ok else []))
+    elif c == "origin":
+        center = rng.choice(["origin"] + ([] if root_default or not default_ok else ["default"]))
+    else:
+        center = "default"
+    th = rng.choice([math.pi / 2, -math.pi / 3, rng.uniform(-3.1, 3.1), rng.uniform(-3.1, 3.1)])
+    a = {"translate": lambda: [rng.randint(-40, 40) / 4 for _ in range(3)],
+         "scale": lambda: [rng.choice([0.5, 2.0, 1.0, 3.0, 0.25, -1.0, rng.randint(1, 40) / 8]) for _ in range(3)],
+         "rotx": lambda: [th], "roty": lambda: [th], "rotz": lambda: [th], "rot": lambda: _unit_axis(rng) + [th],
+         "affine_m": lambda: _matrix12(rng), "translate_origin": lambda: []}[kind]()
+    st = {"kind": kind, "a": a, "center": center}
+    if md:
+        st["mdtype"] = md
+    return st
+
+
+def _step_center(st):
+    c = st["center"]
+    if c == "default":
+        return "root" if st["kind"] in ("scale", "rotx", "roty", "rotz", "rot") else "origin"
+    return "root" if c in ("root", "soma") else "origin"
+
+
+class Pipeline(Suite):
+    """several transforms one after the other: every step must apply ITS stated map about ITS stated centre to the tree
+    it is given — whatever produced that tree — and the inverse steps in reverse order restore the original coordinates"""
+    name = "c12.pipeline"
+    repeat = 15
+
+    def cases(self, rng, tier, widen):
+        out = []
+        big = tier == "thorough" or widen
+        m = len(STEP_COMBOS)
+        k = 0
+        # every ordered pair (first step, second step) of kind x centre mode occurs in every run; a share of the pipelines has a third step
+        for rep in range(3 if big else 1):
+            for i, c1 in enumerate(STEP_COMBOS):
+                for j, c2 in enumerate(STEP_COMBOS):
+                    n = [2, 3, 5, 9][k % 4] if not big else rng.choice([2, 3, 5, 9, 20, 60])
+                    t = gen.tree_case(rng, n, gen.pick_shape(rng, k), numbering=rng.choice(["sorted", "root0"]), coords="dyadic"); k += 1
+                    steps = [_step(rng, c1), _step(rng, c2)]
+                    if rng.random() < 0.25:
+                        steps.append(_step(rng, rng.choice(STEP_COMBOS)))
+                    cm = ">".join(_step_center(s) for s in steps)
+                    out.append({"class": f"pipeline/{cm}", "tree": t, "steps": steps})
+        return out
+
+    def run(self, case):
+        t = gen.make_tree(case["tree"])
+        before = {k: v.copy() for k, v in t.ndata.items()}
+        steps = case["steps"]
+        trs = [_transform(s["kind"], s["a"], s["center"], "float", s.get("mdtype", "float64")) for s in steps]
+        invs = [_inverse(s["kind"], s["a"], _step_center(s)) for s in steps]
+        invs = None if any(v is None for v in invs) else \
+            [_transform(v[0], v[1], s["center"], "float", s.get("mdtype", "float64")) for v, s in zip(invs, steps)]
+        cur, after = t, []
+        for tr in trs:
+            cur = tr(cur)
+            after.append(cur.xyz().astype(np.float64).tolist())
+        res = {"after": after, "pid": cur.pid().tolist(), "type": cur.type().tolist(), "id": cur.id().tolist(),
+               "r": cur.r().astype(np.float64).tolist(),
+               "input_changed": any(not np.array_equal(before[k], t.ndata[k]) for k in before)}
+        if invs is not None:
+            for tr in reversed(invs):
+                cur = tr(cur)
+            res["back"] = cur.xyz().astype(np.float64).tolist()
+        return res
+
+    def oracle(self, case, res):
+        try:
+            return self._oracle(case, res)
+        except Exception as e:  # noqa: BLE001
+            return [("pipeline-malformed-output", f"the result cannot be compared with the stated maps ({type(e).__name__}: {str(e)[:200]})")]
+
+    def _oracle(self, case, res):
+        t, steps = case["tree"], case["steps"]
+        desc = " then ".join(f"{s['kind']}{s['a']} center={s['center']}" + (f" [{s['mdtype']} matrix]" if "mdtype" in s else "") for s in steps)
+        if not isinstance(res, dict):
+            return [("pipeline-malformed-output", f"result is {type(res).__name__}")]
+        if "exc" in res:
+            return [("pipeline-raises", f"{desc} raised {res['exc']}: {res.get('msg')}")]
+        out = []
+        P0 = np.array(t["xyz"], dtype=np.float64)
+        # node 0 is the root in both numberings of gen.tree_case
+        prev, big = P0, np.abs(P0).max()
+        if len(res["after"]) != len(steps):
+            return [("pipeline-malformed-output", f"{len(res['after'])} results for {len(steps)} steps")]
+        for i, (s, g) in enumerate(zip(steps, res["after"])):
+            got = np.array(g, dtype=np.float64)
+            c = _step_center(s)
+            # the stated map of THIS step applied to the tree this step was given (the observed output of the step before)
+            exp = _expected(s["kind"], s["a"], c, prev[0], prev)
+            big = max(big, np.abs(exp).max())
+            tol = 2e-3 + 2e-5 * max(np.abs(exp).max(), np.abs(prev).max())
+            if got.shape != exp.shape or not np.all(np.isfinite(got)) or not np.allclose(got, exp, atol=tol, rtol=0):
+                j = int(np.argmax(np.abs(got - exp).sum(axis=1))) if got.shape == exp.shape else -1
+                out.append((f"{s['kind']}-wrong-map/{c}",
+                            f"step {i + 1} of [{desc}]: node {j} at {prev[j].tolist() if j >= 0 else '?'} (root {prev[0].tolist()}) went to "
+                            f"{got[j].tolist() if j >= 0 else got.shape}, stated map gives {exp[j].tolist() if j >= 0 else exp.shape}"
+                            + (f" [the tree is the output of {steps[i - 1]['kind']} center={steps[i - 1]['center']}]" if i else "")))
+                break
+            prev = got
+        if res["pid"] != t["pids"] or res["type"] != t["types"] or res["id"] != list(range(t["n"])):
+            out.append(("topology-or-type-changed", f"parent relation / types / ids changed by [{desc}]"))
+        r0 = np.array(t["r"], dtype=np.float32).astype(np.float64)
+        if np.shape(res["r"]) != r0.shape or not np.allclose(res["r"], r0):
+            out.append(("radii-changed", f"radii changed by [{desc}]"))
+        if res["input_changed"]:
+            out.append(("input-modified", f"the input tree was modified by [{desc}]"))
+        if not out and "back" in res and not np.allclose(np.array(res["back"], dtype=np.float64), P0, atol=5e-3 + 4e-5 * big * 4, rtol=0):
+            out.append(("pipeline-inverse", f"[{desc}] followed by the inverse steps in reverse order does not restore the coordinates"))
+        return out
+
+    def nontrivial(self, case, res):
+        return case["tree"]["n"] >= 2 and any(abs(v) > 0 for v in case["tree"]["xyz"][0])
+
+
 class Matrices(Suite):
     """cross-check of the translator: generated matrices at Float == the Python matrix functions"""
     name = "c12.matrices"
@@ -305,8 +529,16 @@ class Matrices(Suite):
         out = []
         for _ in range(12 if tier == "quick" else 60):
             for kind, a in _kinds(rng):
-                if kind not in ("translate_origin", "affine", "affine_h"):
+                if kind not in ("translate_origin", "affine", "affine_h", "affine_m"):
                     out.append({"class": kind, "kind": kind, "a": a})
+        # angles of many turns (see _angle): every builder x family x decade
+        ka = 0
+        for rep in range(1 if tier == "quick" else 4):
+            for fam in ANGLE_FAMILIES:
+                for _e in range(5):
+                    for kind in ("rotx", "roty", "rotz", "rot"):
+                        out.append({"class": f"{kind}-angle-{fam}", "kind": kind, "a": ([] if kind != "rot" else _unit_axis(rng)) + [_angle(rng, fam, ka)]})
+                    ka += 1
         return out
 
     def run(self, case):
@@ -326,12 +558,24 @@ class Matrices(Suite):
     def oracle(self, case, res):
         if "exc" in res:
             return [(f"{case['kind']}-matrix-raises", f"matrix function for {case['kind']}{case['a']} raised {res['exc']}: {res.get('msg')}")]
-        if res["shape"] != [4, 4]:
-            return [(f"{case['kind']}-matrix-shape", f"shape {res['shape']}")]
+        if not isinstance(res, dict) or res.get("shape") != [4, 4] or len(res.get("m") or []) != 16:
+            return [(f"{case['kind']}-matrix-shape", f"shape {res.get('shape') if isinstance(res, dict) else type(res).__name__}")]
+        # the matrix IS the stated map: M·(p, 1) = stated map of p for the origin and the three unit points, last row (0, 0, 0, 1)
+        try:
+            M = np.array(res["m"], dtype=np.float64).reshape(4, 4)
+            pts = np.vstack([np.zeros(3), np.eye(3)])
+            exp = _expected(case["kind"], case["a"], "origin", [0.0, 0.0, 0.0], pts)
+            got = (np.hstack([pts, np.ones((4, 1))]) @ M.T)
+            ok = np.allclose(got[:, :3], exp, atol=1e-5, rtol=1e-6) and np.allclose(got[:, 3], 1.0, atol=1e-6) and np.allclose(M[3], [0, 0, 0, 1], atol=1e-6)
+        except Exception as e:  # noqa: BLE001
+            return [(f"{case['kind']}-matrix-shape", f"matrix cannot be evaluated ({type(e).__name__}: {str(e)[:120]})")]
+        if not ok:
+            return [(f"{case['kind']}-matrix-wrong-map", f"utils matrix for {case['kind']}{case['a']} maps 0, e1, e2, e3 to {got[:, :3].tolist()}, "
+                     f"the stated map gives {exp.tolist()}")]
         return []
 
 
-SUITES = [Affine(), Matrices()]
+SUITES = [Affine(), Pipeline(), Matrices()]
 
 TECHNIQUE = "Lean 4 theorems (ring / linear_combination over an ordered field) about matrices and the centre conjugation REGENERATED from the Python source by an AST translator on every run + Float cross-check of the generated terms + direct oracle of the stated map"
 LEVEL_TEXT = ("Kernel-checked for all vectors, scale factors, unit axes and angles (through c²+s²=1) and all node / root positions: the generated "
